@@ -300,7 +300,7 @@ DoAttach(ev) ==
     /\ IF ev.ok = 1
        THEN /\ edges' = AdoptEdge(ev.s, ev.res)
             /\ ids' = AdoptId(ev.s, ev.res)
-            /\ viol' = viol \cup EdgeViol(FreshEdge(IF ev.f < 0 THEN NoForest ELSE ev.f), ev.res, "C17")
+            /\ viol' = viol \cup EdgeViol(AttachResult(ev.s, IF ev.f < 0 THEN NoForest ELSE ev.f), ev.res, "C17")
        ELSE /\ Same(<<edges, ids>>)
             /\ viol' = viol \cup {V("C17", "attach-failed-" \o ev.err)}
     /\ err' = IF ev.ok = 1 THEN "ok" ELSE ev.err
